@@ -125,6 +125,7 @@ fn rule_variants(name: &str, kind: RuleKind, k: usize) -> Vec<String> {
 }
 
 pub fn run(ctx: &mut Ctx) {
+    let fs = ctx.first_shard();
     ctx.rule = "sweep: every rule of public_suffix_list.dat (A-label form) as itself, with 1-3 labels prepended, with its leading label removed and replaced; random: 1-8 labels from the list's label vocabulary and fresh labels, optionally on top of a list rule; structural: arbitrary strings (ASCII/Unicode/empty labels/long/mixed case). Non-trivial = canonical name whose prevailing rule is not the implicit '*'; distinct by name.".into();
     ctx.assumptions = vec![
         "agreement with the reference is asserted for canonical names (lower-case ASCII / A-labels, no empty label), the documented input domain; other strings get the structural checks only".into(),
@@ -150,7 +151,7 @@ pub fn run(ctx: &mut Ctx) {
     ctx.note("rule_kinds", json!({"normal": kinds[0], "wildcard": kinds[1], "exception": kinds[2], "idn": psl.rules.iter().filter(|r| r.name.contains("xn--")).count()}));
 
     // ---- stage 1: complete rule sweep
-    'sweep: for (k, r) in psl.rules.iter().enumerate() {
+    'sweep: for (k, r) in psl.rules.iter().enumerate().filter(|_| fs) {
         for d in rule_variants(&r.name, r.kind, k) {
             ctx.eval();
             match check_canonical(&psl, &d) {
@@ -200,7 +201,7 @@ pub fn run(ctx: &mut Ctx) {
         }
         parts.join(".")
     };
-    let n_random = ctx.tier.pick(200_000u32, 5_000_000u32);
+    let n_random = ctx.tier.pick(200_000u32, 60_000_000u32);
     let psl_ref = &psl;
     let b2 = build.clone();
     match search(ctx, 10, n_random, strat, move |ctx, v| {
@@ -230,7 +231,7 @@ pub fn run(ctx: &mut Ctx) {
         1 => (1usize..400).prop_map(|n| "abcdefghij.".repeat(n)),
     ];
     let strat = proptest::collection::vec(piece, 0..10).prop_map(|v| v.concat());
-    let n_struct = ctx.tier.pick(100_000u32, 2_000_000u32);
+    let n_struct = ctx.tier.pick(100_000u32, 24_000_000u32);
     match search(ctx, 11, n_struct, strat, |ctx, s| {
         ctx.eval();
         check_structural(s)?;
